@@ -28,7 +28,7 @@ def shards(tier):
 
 def floors(tier):
     return {"decoder_cases": 3000, "decoder_atoms_checked": 30000, "multi_fragment": 1000, "with_nop": 500, "nested_atoms": 3000,
-            "fragment_ends_in_index_read": 100, "encoder_cases": 1500, "encoder_pairs_checked": 10000, "entries_checked": 50000, "outputs_with_percent_labels": 100}
+            "fragment_ends_in_index_read": 100, "encoder_cases": 1500, "encoder_pairs_checked": 10000, "entries_checked": 50000, "outputs_with_percent_labels": 100, "compatible_cases": 3000}
 
 
 def as_list(am):
@@ -137,6 +137,41 @@ def run(ctx):
                 ctx.finding("decoder-atom-attribution-wrong", dict(payload, output=out[:500]),
                             "atom %d (%s): reported %r, expected %r" % (i, m.atoms[i].text, got.get(i), ref.attr[i]))
                 break
+    # ------------------------------------------------- decoder, compatible=True (legacy symbols, also in index positions)
+    from vmon.hostile import LEGACY
+    from vmon.legacy import modernize
+    sf.set_semantic_constraints("default")
+    table = sf.get_semantic_constraints()
+    g = LiveGen(table, rng, p_branch=0.25, p_ring=0.2)
+    leg_branch = [s for s in LEGACY if s.startswith("[Branch") and s[-2] in "123" and s[-4] in "123"]
+    for it in range(300 if quick else 8000):
+        toks = tokens_with_dots(g.string(rng.choice([1, 2]), rng.choice([8, 20, 50])))
+        for k in range(rng.randint(1, 4)):
+            p_ = rng.randrange(len(toks))
+            if toks[p_] != ".":
+                # legacy spellings of branch symbols (also where they serve as index digits), legacy rings and atoms
+                toks[p_] = rng.choice(leg_branch + leg_branch + LEGACY[:36])
+        x = "".join(toks)
+        p0 = call_guard(lambda: sf.decoder(x, compatible=True), expected=(sf.DecoderError,))
+        a0 = call_guard(lambda: sf.decoder(x, compatible=True, attribute=True), expected=(sf.DecoderError,))
+        ctx.count("compatible_cases")
+        ctx.case(("dc", x), True)
+        got = a0[1][0] if a0[0] == "ok" else None
+        if p0[0] == "esc" or a0[0] == "esc":
+            ctx.finding("escape:%s" % (p0 if p0[0] == "esc" else a0)[1], {"selfies": x, "table": table}, repr((p0, a0))[:300])
+        elif p0[0] != a0[0] or (p0[0] == "ok" and got != p0[1]):
+            ctx.finding("attribution-changes-output-under-compatible", {"selfies": x, "table": table},
+                        "compatible=True: %r ; compatible=True, attribute=True: %r" % (p0[:2], (a0[0], got)))
+        elif p0[0] == "ok":
+            # cited input positions: the symbol at that position (as written or modernised)
+            insyms = [t for t in toks if t not in (".", "[nop]")]
+            for e in as_list(a0[1][1]):
+                for (i_, t_) in e[2]:
+                    if not (isinstance(i_, int) and 0 <= i_ < len(insyms) and t_ in (insyms[i_], modernize(insyms[i_]))):
+                        ctx.finding("decoder-input-token-not-at-reported-position", {"selfies": x, "table": table, "compatible": True},
+                                    "entry cites (%r, %r), input symbol %r is %r" % (i_, t_, i_, insyms[i_] if isinstance(i_, int) and 0 <= i_ < len(insyms) else None))
+                        break
+
     # ------------------------------------------------------------ encoder
     sf.set_semantic_constraints({"?": 12})
     lax = sf.get_semantic_constraints()
